@@ -139,6 +139,50 @@ Definition is_revoked (cfg : rcfg) (st : rstate) (c : cert) : verdict :=
   else if existsb (fun ide => e_loaded (snd ide) && match e_list (snd ide) with Some l => listed c l | None => false end) (entries st)
   then VRevoked else VAccept.
 
+(* addNewEmptyEntry: may a list found in a persistent store be used without being loaded again?
+   (persistedCRLCounts; whether the check exists at all is read from the source: GenFacts) *)
+Definition adopt_counts (cfg : rcfg) (sg : option N) (chain : list N) : bool :=
+  if GenFacts.persisted_adoption_checked then
+    match r_sigmode cfg with
+    | SigVerify => match sg with Some s => existsb (N.eqb s) chain | None => false end
+    | _ => true
+    end
+  else true.
+
+Definition new_entry (cfg : rcfg) (st : rstate) (id : ident) (c : cert) : entry :=
+  let from_disk := match r_storage cfg with Disk => lookup id (disk st) | Memory => None end in
+  let adopted := match from_disk with
+                 | Some (l, s) => if adopt_counts cfg s (c_chain c) then Some (l, s) else None
+                 | None => None end in
+  {| e_locs := id; e_list := option_map fst adopted;
+     e_loaded := match adopted with Some _ => true | None => false end;
+     e_chain := c_chain c;
+     e_signer := match adopted with Some (_, s) => s | None => None end |}.
+
+(* getOrAddEntry *)
+Definition added_state (cfg : rcfg) (st : rstate) (id : ident) (c : cert) : rstate :=
+  match lookup id (entries st) with
+  | Some _ => st
+  | None => {| entries := entries st ++ [(id, new_entry cfg st id c)]; disk := disk st |}
+  end.
+
+(* loadActively *)
+Definition loaded_state (cfg : rcfg) (ev : env) (st1 : rstate) (id : ident) (c : cert) : rstate :=
+  match r_fetch cfg, lookup id (entries st1) with
+  | Active, Some e =>
+    if e_loaded e then st1
+    else let '(e', r) := intake cfg ev FirstLoad id e (c_chain c) NoFault in
+         {| entries := update id e' (entries st1); disk := persist cfg id r (disk st1) |}
+  | _, _ => st1
+  end.
+
+(* the state the handshake's own lookup sees *)
+Definition lookup_state (cfg : rcfg) (ev : env) (st : rstate) (c : cert) : rstate :=
+  match c_cdps c, http_locs c with
+  | [], _ | _, [] => st
+  | _, id => loaded_state cfg ev (added_state cfg st id c) id c
+  end.
+
 (* CRLRevocationChecker.IsRevoked: AddCRL for the certificate's CDPs, then the lookup, then
    (background mode, new entry) the forced refresh *)
 Definition handshake (cfg : rcfg) (ev : env) (st : rstate) (c : cert) : rstate * verdict :=
@@ -146,25 +190,8 @@ Definition handshake (cfg : rcfg) (ev : env) (st : rstate) (c : cert) : rstate *
   match c_cdps c, id with
   | [], _ | _, [] => (st, is_revoked cfg st c)
   | _, _ =>
-    let '(st1, added) :=
-      match lookup id (entries st) with
-      | Some _ => (st, false)
-      | None =>
-        let from_disk := match r_storage cfg with Disk => lookup id (disk st) | Memory => None end in
-        let e := {| e_locs := id; e_list := option_map fst from_disk;
-                    e_loaded := match from_disk with Some _ => true | None => false end;
-                    e_chain := c_chain c;
-                    e_signer := match from_disk with Some (_, s) => s | None => None end |} in
-        ({| entries := entries st ++ [(id, e)]; disk := disk st |}, true)
-      end in
-    let st2 :=
-      match r_fetch cfg, lookup id (entries st1) with
-      | Active, Some e =>
-        if e_loaded e then st1
-        else let '(e', r) := intake cfg ev FirstLoad id e (c_chain c) NoFault in
-             {| entries := update id e' (entries st1); disk := persist cfg id r (disk st1) |}
-      | _, _ => st1
-      end in
+    let added := match lookup id (entries st) with Some _ => false | None => true end in
+    let st2 := loaded_state cfg ev (added_state cfg st id c) id c in
     let v := is_revoked cfg st2 c in
     let st3 := match r_fetch cfg with Background => if added then refresh_all cfg ev NoFault st2 else st2 | Active => st2 end in
     (st3, v)
